@@ -1,11 +1,13 @@
 mod c01b;
 mod c06;
+mod c07;
 mod c10;
 mod c13;
 mod c14;
 mod c15;
 mod c16;
 mod net;
+mod tlsutil;
 mod tunnel;
 mod world;
 
@@ -15,6 +17,7 @@ fn main() {
     let mut checks: Vec<Box<dyn SubCheck>> = vec![];
     checks.extend(c01b::checks());
     checks.extend(c06::checks());
+    checks.extend(c07::checks());
     checks.extend(c10::checks());
     checks.extend(c13::checks());
     checks.extend(c14::checks());
